@@ -58,7 +58,10 @@ def packs(*p):
 
 
 def instrumented(us):
-    return [u for u in us if "elem_tc" not in u["elem"] and "elem_b1" not in u["elem"]]
+    """universes whose element lifetimes are observable: registry-tracked flavours, and trivially
+    copyable ones behind an allocator with construct()/destroy() members (allocator's view)"""
+    return [u for u in us if ("elem_tc" not in u["elem"] and "elem_b1" not in u["elem"])
+            or u["name"] in ("alloc_TC_cm", "alloc_TC_legacy")]
 
 
 def stage(mode, us, runs, prop, faults=0, nops=24, flavour="asan20", extra=()):
